@@ -9,6 +9,7 @@ import warnings
 
 import vlib
 from props import c12_expr as X
+from props import c12_det as D
 
 F = fractions.Fraction
 PID = 'C12'
@@ -30,10 +31,15 @@ RULE = ('random formulas (depth <= 4) over + - * / unary minus, integer powers, 
         'numpy arrays of dyadic sample times, with argument types changing between calls (cached lambda reuse). Further '
         'kinds: partial substitution (numbers, variables, swaps, terms mentioning a Sum index, one mapping binding X to a '
         'number and other names to terms mentioning X) then evaluation, for ExpressionScalar and ExpressionVector; every '
-        'exact-mode call with exact inputs additionally runs the typed model on the formula read back from sympy; operators '
+        'scalar in_scope / numeric / exact call additionally runs the typed model (mode, value, type class) on the formula read '
+        'back from sympy; operators '
         'between ExpressionScalar and numbers of every type, both operand orders; tri-state comparisons with sample '
         'assignments; ExpressionVector (evaluate, serialise, index); malformed stream (missing variable, division by '
-        'zero, index out of range). Non-trivial = formula with >= 3 nodes; distinct = distinct canonical JSON.')
+        'zero, index out of range). Deterministic families (c12_det.py, the same for every seed): negative non-integral '
+        'float scalars through floor/ceiling/// on every path against the array path; comparisons between equal values in '
+        'different writing incl. reflected forms; fixed argument-type sequences on one object; parameters named like numpy '
+        '/ generated-code / internal names; names the formula language reserves; 2-D vectors; Len/Broadcast. '
+        'Non-trivial = formula with >= 3 nodes; distinct = distinct canonical JSON.')
 TRUSTED = [
     'Coq 8.16.1 kernel + vm_compute (no native_compute)',
     'sympy (parser, printer, auto-simplification, lambdify), numpy, gmpy2: they ARE the implementation under comparison; '
@@ -322,7 +328,22 @@ def gen_cases(rng, tier, ctx):
         calls = [{'path': p, 'scope': scope} for p in ['in_scope', 'exact'] if _usable(e, scope, p)]
         if calls:
             cases.append({'kind': 'eval', 'expr': e, 'route': 'str', 'calls': calls, 'malformed': what})
-    return [c for c in cases if not _fragile_case(c)]
+    return _det_cases(tier) + [c for c in cases if not _fragile_case(c)]
+
+
+def _det_cases(tier):
+    """the deterministic families of c12_det (same cases for every seed); calls that sit on a jump with an inexact
+    argument are dropped by the same rule as in the random stream"""
+    out = []
+    for c in D.det_cases(tier, _usable):
+        if c['kind'] == 'eval':
+            c = dict(c, calls=[cl for cl in c['calls'] if _usable(c['expr'], cl['scope'], cl['path'])])
+            if not c['calls']:
+                continue
+        elif _fragile_case(c):
+            continue
+        out.append(c)
+    return out
 
 
 def _mixsame_subs(rng, vs, num_types=('int', 'float', 'time')):
@@ -420,6 +441,8 @@ def _py_value(tv):
         return np.int64(int(tv['v']))
     if ty == 'npfloat':
         return np.float64(float(F(tv['v'])))
+    if ty == 'npf32':
+        return np.float32(float(F(tv['v'])))
     if ty == 'arri':
         return np.array([int(s) for s in tv['v']], dtype=np.int64)
     if ty == 'arrf':
@@ -505,6 +528,104 @@ def _readback(ex):
         return None
 
 
+def _run_reserved(case):
+    """a name the formula language defines itself, used where a parameter could stand"""
+    from qupulse.expressions import ExpressionScalar
+    text = case['template'].format(n=case['name'])
+    ex, bad = _construct(lambda: ExpressionScalar(text))
+    if bad is not None:
+        return bad if ('hang' in bad or 'crash' in bad) else {'construct_error': bad['err']}
+    kw = {'t': 3, 'x': 5, case['name']: 7}
+    out = {'vars': sorted(map(str, ex.variables)), 'vals': {}}
+    for p, f in (('in_scope', lambda: ex.evaluate_in_scope(kw)), ('exact', lambda: ex.evaluate_with_exact_rationals(kw)),
+                 ('symbolic', lambda: ex.evaluate_symbolic({'t': 3, 'x': 5}).evaluate_in_scope(kw))):
+        try:
+            with warnings.catch_warnings():
+                warnings.simplefilter('ignore')
+                r = f()
+            out['vals'][p] = [float(complex(r).real), float(complex(r).imag)]
+        except Exception as e:
+            out['vals'][p] = 'err:' + type(e).__name__
+    return out
+
+
+def _run_lenbc(case):
+    import numpy as np
+    from qupulse.expressions import ExpressionScalar
+
+    def val(x):
+        if isinstance(x, list):
+            return np.array([float(F(str(y))) if any(F(str(z)).denominator != 1 for z in x) else int(y) for y in x])
+        q = F(str(x))
+        return int(q) if q.denominator == 1 else float(q)
+    kw = {x: val(y) for x, y in case['scope'].items()}
+
+    def run():
+        ex = ExpressionScalar(case['text'])
+        p = case['path']
+        if p == 'exact':
+            return ex.evaluate_with_exact_rationals(kw)
+        if p == 'numeric':
+            return ex.evaluate_numeric(**kw)
+        if p == 'serial':
+            return ExpressionScalar(ex.get_serialization_data()).evaluate_in_scope(kw)
+        if p == 'twice':
+            ex.evaluate_in_scope(kw)
+        return ex.evaluate_in_scope(kw)
+    return {'obs': _guard(run)}
+
+
+def _lenbc_spec(case, obs):
+    o = obs.get('obs', {})
+
+    def flat(w):
+        return [x for y in w for x in flat(y)] if isinstance(w, list) else [w]
+
+    def shape(w):
+        return [len(w)] + shape(w[0]) if isinstance(w, list) else []
+    want = case['want']
+    if isinstance(want, list):
+        if 'arr' not in o or o.get('shape') != shape(want) or [F(x) for x in o['arr']] != [F(x) for x in flat(want)]:
+            return '%s in %r: observed %r, the formula denotes %r' % (case['text'], case['scope'], o, want)
+    elif 'val' not in o or F(o['val']) != F(want):
+        return '%s in %r: observed %r, the formula denotes %s' % (case['text'], case['scope'], o, want)
+    return None
+
+
+def _reserved_spec(case, obs):
+    """never a silently wrong value: either the name is a variable of the expression (then its value is used), or it
+    is the documented constant (and not a variable), or the expression is refused at construction"""
+    if 'construct_error' in obs:
+        return None if case['role'] == 'reject' else 'the formula %r is refused although %s is a %s' % (
+            case['template'].format(n=case['name']), case['name'], case['role'])
+    if 'vals' not in obs:
+        return None
+    nm, role = case['name'], case['role']
+    others = sorted(x for x in ('t', 'x') if x in case['template'])
+    if nm in obs['vars']:
+        n, want_vars = 7, sorted(others + [nm])
+    elif role == 'const':
+        n, want_vars = float(case['value']), others
+    elif role == 'complex':
+        n, want_vars = 1j, others
+    else:
+        return 'the name %s is neither a variable nor a documented constant' % nm
+    if obs['vars'] != want_vars:
+        return 'variables %r, expected %r' % (obs['vars'], want_vars)
+    t, x = 3, 5
+    try:
+        want = {'{n}*t': lambda: n * t, 't + {n}*x': lambda: t + n * x, 'Max({n}*t, x)': lambda: max(n * t, x)}[case['template']]()
+    except TypeError:
+        return None
+    want = complex(want)
+    for p, val in obs['vals'].items():
+        if isinstance(val, str):
+            return 'evaluation (%s) of %r raises %s' % (p, case['template'].format(n=nm), val)
+        if abs(complex(val[0], val[1]) - want) > 1e-12 * max(1.0, abs(want)):
+            return 'evaluation (%s) of %r gives %r, the formula denotes %r' % (p, case['template'].format(n=nm), val, want)
+    return None
+
+
 def _make(e, route):
     from qupulse.expressions import ExpressionScalar
     if route == 'sym':
@@ -528,7 +649,7 @@ def _construct(fn):
 
 def _call(ex, path, scope):
     from qupulse.expressions import ExpressionScalar
-    kw = {x: _py_value(tv) for x, tv in scope.items()}
+    kw = {X.rn(x): _py_value(tv) for x, tv in scope.items()}
     if path in ('in_scope', 'array'):
         return _guard(lambda: ex.evaluate_in_scope(kw))
     if path == 'numeric':
@@ -543,13 +664,25 @@ def _call(ex, path, scope):
 
 
 def run_impl(case):
+    with warnings.catch_warnings():
+        warnings.simplefilter('ignore')
+        import qupulse.expressions  # noqa: F401  (first import warns about scipy)
+    with X.renaming(case.get('rename')):
+        return _run_impl(case)
+
+
+def _run_impl(case):
     from qupulse.expressions import ExpressionScalar, ExpressionVector, Expression
     k = case['kind']
+    if k == 'reserved':
+        return _run_reserved(case)
+    if k == 'lenbc':
+        return _run_lenbc(case)
     if k == 'eval':
         ex, bad = _construct(lambda: _make(case['expr'], case['route']))
         if bad is not None:
             return bad if ('hang' in bad or 'crash' in bad) else {'vars': [], 'obs': [bad for _ in case['calls']]}
-        out = {'vars': sorted(map(str, ex.variables)), 'obs': [], 'impl_expr': _readback(ex)}
+        out = {'vars': sorted(X.unrn(str(v)) for v in ex.variables), 'obs': [], 'impl_expr': _readback(ex)}
         for c in case['calls']:
             out['obs'].append(_call(ex, c['path'], c['scope']))
         if case['route'] == 'str':     # parsing the printed form back gives an equal object
@@ -610,10 +743,17 @@ def run_impl(case):
         f = {'lt': operator.lt, 'le': operator.le, 'gt': operator.gt, 'ge': operator.ge}[case['op']]
 
         def run():
+            num = case.get('num') or {}
             a = ExpressionScalar(X.to_str(case['a']))
+            if case.get('a_subs'):
+                a = a.evaluate_symbolic({x: _py_value(tv) for x, tv in case['a_subs'].items()})
+            if num.get('side') == 'a':       # the raw number on the LEFT: Python calls the reflected method
+                a = _py_value(num)
             if case['rhs_num']:
                 q = F(case['b'][1])
                 b = int(q) if q.denominator == 1 else float(q)
+            elif num.get('side') == 'b':
+                b = _py_value(num)
             else:
                 b = ExpressionScalar(X.to_str(case['b']))
             r = f(a, b)
@@ -634,6 +774,9 @@ def run_impl(case):
     if k == 'vec':
         kw = {x: _py_value(tv) for x, tv in case['scope'].items()}
         strs = [X.to_str(e) for e in case['exprs']]
+        if case.get('shape'):        # 2-D ExpressionVector: nested lists, row-major
+            nr, nc = case['shape']
+            strs = [strs[i * nc:(i + 1) * nc] for i in range(nr)]
         p = case['path']
 
         rbs = []
@@ -655,6 +798,11 @@ def run_impl(case):
                 return ev.evaluate_symbolic(kw).evaluate_in_scope({})
             if p == 'item':
                 ev.evaluate_in_scope(kw)   # warm the per-item lambdas first
+                if case.get('shape'):      # row i is an ExpressionVector again
+                    rows = [ev[i] for i in range(len(strs))]
+                    if not all(isinstance(r, ExpressionVector) for r in rows):
+                        raise TypeError('row of a 2-D vector is not a vector')
+                    return np.array([r.evaluate_in_scope(kw) for r in rows])
                 return np.array([ev[i].evaluate_in_scope(kw) for i in range(len(strs))])
             raise ValueError(p)
         o = _guard(run)
@@ -753,19 +901,39 @@ def _typed_applicable(c, impl_e):
         and not _has_float_const(impl_e) and not X.has_fn(impl_e)
 
 
-def _g_exact_typed(e, c, o, impl_e):
-    if not _typed_applicable(c, impl_e):
+TYPED_TYPES = {'int', 'npint', 'float', 'npfloat', 'npf32', 'time', 'arri', 'arrf'}
+OBS_CLASS = {'int': 'TInt', 'int64': 'TInt', 'int32': 'TInt', 'bool': 'TInt', 'bool_': 'TInt', 'float': 'TFloat',
+             'float64': 'TFloat', 'float32': 'TFloat', 'TimeType': 'TTime'}
+
+
+def _typed_view(c, impl_e):
+    """(exact mode?, formula with literals abstracted, typed scalar scope, typed bases) of a call the typed model
+    covers: scalar scope of ints / floats / TimeType, numeric or exact lambda of THIS object, no sin/cos/exp"""
+    if c['path'] not in ('in_scope', 'numeric', 'exact') or impl_e is None or X.has_fn(impl_e):
         return None
-    sc, vc, arr = X.split_scope(c['scope'])
-    if arr:
+    if not _types_of(c['scope']) <= TYPED_TYPES or X.split_scope(c['scope'])[2]:
         return None
-    tolf = bool(X.analyse(e, sc, vc)['inexact']) or _impl_inexact(impl_e, sc, vc)
     tsc, tvc = X.typed_scope(c['scope'])
+    ab = X.abstract_literals(impl_e, tsc)
+    if ab is None:
+        return None
+    return c['path'] == 'exact', ab[0], ab[1], tvc
+
+
+def _g_typed(e, c, o, impl_e):
+    tv = _typed_view(c, impl_e)
+    if tv is None:
+        return None
+    ex, te, tsc, tvc = tv
+    sc, vc, _ = X.split_scope(c['scope'])
+    tolf = bool(X.analyse(e, sc, vc)['inexact']) or _impl_inexact(impl_e, sc, vc)
     gty = {'int': 'TInt', 'time': 'TTime', 'float': 'TFloat'}
     gsc = '[%s]' % '; '.join('(%d%%N, (%s, %s))' % (X.NID[x], X.gq(v), gty[t]) for x, (v, t) in sorted(tsc.items()))
     gvc = '[%s]' % '; '.join('(%d%%N, ([%s], %s))' % (X.NID[x], '; '.join(X.gq(v) for v in l), gty[t])
                              for x, (l, t) in sorted(tvc.items()))
-    return '(CExactTy %s %s %s %s %s)' % (X.to_coq(impl_e), gsc, gvc, vlib.gbool(tolf), _g_obs(o))
+    oc = OBS_CLASS.get(o.get('ty')) if 'val' in o else None
+    return '(CTyped %s %s %s %s %s %s %s)' % (vlib.gbool(ex), X.to_coq(te), gsc, gvc, vlib.gbool(tolf), _g_obs(o),
+                                              '(Some %s)' % oc if oc else 'None')
 
 
 def _bad(obs):
@@ -784,6 +952,8 @@ def to_coq(case, obs):
     k = case['kind']
     if _bad(obs):
         return '[CCrash]'
+    if k in ('reserved', 'lenbc'):     # judged by py_spec (outside the Coq formula language)
+        return '[CEval (Const 0) [] []]'
     if k == 'eval':
         if any(_bad(o) for o in obs['obs']):
             return '[CCrash]'
@@ -799,7 +969,7 @@ def to_coq(case, obs):
             else:
                 units.append('(CEval %s %s [%s])' % (X.to_coq(e), ivars,
                                                      _g_call(e, c['scope'], c['path'], o, obs.get('impl_expr'))))
-                t = _g_exact_typed(e, c, o, obs.get('impl_expr'))
+                t = _g_typed(e, c, o, obs.get('impl_expr'))
                 if t is not None:
                     units.append(t)
         return '[%s]' % '; '.join(units)
@@ -834,8 +1004,11 @@ def to_coq(case, obs):
         impl = 'None' if obs.get('ret') is None else '(Some %s)' % vlib.gbool(obs['ret'])
         samples = '[%s]' % '; '.join('[%s]' % '; '.join('(%d%%N, %s)' % (X.NID[x], X.gq(v)) for x, v in sorted(s.items()))
                                      for s in case['samples'])
+        ca = case['a']
+        if case.get('a_subs'):
+            ca = X.subst({x: ['c', tv['v'], 'r'] for x, tv in case['a_subs'].items()}, ca)
         return '[CCmp %s %s %s %s %s]' % ({'lt': 'OLt', 'le': 'OLe', 'gt': 'OGt', 'ge': 'OGe'}[case['op']],
-                                          X.to_coq(case['a']), X.to_coq(case['b']), impl, samples)
+                                          X.to_coq(ca), X.to_coq(case['b']), impl, samples)
     if k == 'vec':
         es = case['exprs']
         allv = es[0]
@@ -888,6 +1061,8 @@ def _has_float_const(e):
 
 def _exprs_of(case):
     k = case['kind']
+    if k in ('reserved', 'lenbc'):
+        return []
     if k in ('eval', 'partial'):
         return [case['expr']]
     if k == 'build':
@@ -904,6 +1079,16 @@ def nontrivial(case, obs):
 def histogram_keys(case, obs):
     k = case['kind']
     keys = [k]
+    if case.get('family'):
+        keys.append('family:' + ':'.join(case['family'].split(':')[:2]))
+    if k == 'lenbc':
+        return keys + ['lenbc:' + case['path'], 'obs:' + _okind(obs.get('obs', {}))]
+    if k == 'reserved':
+        return keys + ['reserved:%s:%s' % (case['role'], 'refused' if 'construct_error' in obs else 'built')]
+    if k == 'cmp' and case.get('num'):
+        keys.append('cmp:number-%s:%s' % ('left' if case['num']['side'] == 'a' else 'right', case['num']['ty']))
+    if k == 'vec' and case.get('shape'):
+        keys.append('vec:2d')
     for e in _exprs_of(case):
         keys += ['node:' + n for n in sorted(X.kinds(e))]
         keys.append('size:%s' % ('1-2' if X.size(e) < 3 else '3-7' if X.size(e) < 8 else '8-15' if X.size(e) < 16 else '16+'))
@@ -921,6 +1106,13 @@ def histogram_keys(case, obs):
                 keys.append('typed_model_exact_calls')
                 if _exact_mode_float(obs['impl_expr'], c['scope']):
                     keys.append('typed_model_predicts_float')
+            tvw = _typed_view(c, obs.get('impl_expr'))
+            if tvw is not None:
+                keys.append('typed_calls:%s' % ('exact' if tvw[0] else 'numeric'))
+                try:
+                    keys.append('typed_predicts:%s' % X.typed_eval(tvw[1], tvw[2], tvw[3], exact=tvw[0])[1])
+                except X.EvalError:
+                    pass
             try:
                 tol, _ = _tol(case['expr'], c['scope'], c['path'])
                 keys.append('inexact_calls' if tol else 'exact_calls')
@@ -1024,6 +1216,42 @@ def _mixed_shape_junction(e, array_names):
     return False
 
 
+def _code_uses_as_function(case):
+    """does the code sympy generates for this formula -- written with the REAL parameter names, either printer -- use
+    one of the renamed parameters as a function or module (`name(` / `name.`)?  A number is never used that way: the
+    parameter shadows a global name of the generated code."""
+    import inspect
+    import re
+    import sympy
+    from qupulse.utils import sympy as qs
+    from qupulse.utils.types import TimeType
+    real = set((case.get('rename') or {}).values())
+    e = case['expr']
+    try:
+        with X.renaming(case.get('rename')), warnings.catch_warnings():
+            warnings.simplefilter('ignore')
+            sx = X.to_sympy(e)
+            args = sorted(X.rn(x) for x in X.fv(e) | X.fvv(e))
+            srcs = [inspect.getsource(sympy.lambdify(args, sx, qs._lambdify_modules))]
+            qs._lambdify_modules[0]['TimeType'] = TimeType
+            pr = qs.HighPrecPrinter.make(sx, qs._lambdify_modules, use_imps=False)
+            srcs.append(inspect.getsource(sympy.lambdify(args, sx, qs._lambdify_modules, printer=pr)))
+    except Exception:
+        return False
+    body = '\n'.join(x.split('\n', 1)[1] if '\n' in x else x for x in srcs)      # without the def line
+    return any(re.search(r'(?<![\w.])%s\s*[(.]' % re.escape(nm), body) for nm in real)
+
+
+def _name_capture(case, c, o):
+    """lambda-name-capture, the class: a variable is called like a global name the generated code uses (select, less,
+    logical_and, builtins, range, mod, broadcast_to, TimeType ...), or `self` through evaluate_numeric(**kwargs); the
+    compiled evaluation raises TypeError / AttributeError (the symbolic route does not compile: it is not affected)"""
+    real = set((case.get('rename') or {}).values())
+    if not real or o.get('err') not in ('other:TypeError', 'other:AttributeError') or c['path'] == 'symfull':
+        return False
+    return _code_uses_as_function(case) or ('self' in real and c['path'] == 'numeric')
+
+
 def _classify_call(e, kinds, scope, path, route, o, exact_required, extra_types=(), symbolic=False, impl_e=None,
                    parsed_parts=None):
     sc, vc, arr = X.split_scope(scope)
@@ -1096,8 +1324,11 @@ def classify(case, obs):
                     not X.has_fn(e) and not _has_float_const(e)
                 # sympy folded the decimal literals away (floor(-0.375) -> -1): the typed unit case requires exactness
                 exact = exact or (_typed_applicable(c, obs.get('impl_expr')) and not X.split_scope(c['scope'])[2])
-                ids.add(_classify_call(e, X.kinds(e), c['scope'], c['path'], case['route'], o, exact,
-                                       impl_e=obs.get('impl_expr')))
+                r = _classify_call(e, X.kinds(e), c['scope'], c['path'], case['route'], o, exact,
+                                   impl_e=obs.get('impl_expr'))
+                if r is None and _name_capture(case, c, o):
+                    r = 'lambda-name-capture'
+                ids.add(r)
             ids.discard('ok')
             return sorted(ids)[0] if ids and None not in ids else None
         if k == 'partial':
@@ -1161,6 +1392,10 @@ def classify(case, obs):
 
 
 def py_spec(case, obs):
+    if case['kind'] == 'reserved':
+        return _reserved_spec(case, obs)
+    if case['kind'] == 'lenbc':
+        return _lenbc_spec(case, obs)
     if case['kind'] == 'eval' and 'serial_equal' in obs:
         o = obs['serial_equal']
         if o.get('val') == '0':
@@ -1187,18 +1422,123 @@ def search_failing(ctx, broken):
     return None
 
 
+def _spec_fails(ctx, cands, tag):
+    """run the implementation and check_spec (in Coq) on candidate cases; -> indices rejected for an unlisted reason"""
+    known, _ = vlib.load_known_findings()
+    known = known.get(PID, {})
+    obs = []
+    for c in cands:
+        try:
+            obs.append(run_impl(c))
+        except Exception as e:
+            obs.append({'crash': type(e).__name__})
+    bad = {i for i, (c, o) in enumerate(zip(cands, obs)) if py_spec(c, o) not in (None, True)}
+    terms = [to_coq(c, o) for c, o in zip(cands, obs)]
+    try:
+        res = vlib.run_coq_cases(os.path.join(ctx['workdir'], tag), CORR_IMPORTS, [CHECK_SPEC], terms, shard=SHARD)
+        bad |= set(res[CHECK_SPEC])
+    except RuntimeError:
+        return [], obs
+    return sorted(i for i in bad if classify(cands[i], obs[i]) not in known), obs
+
+
+def _reductions(case):
+    """one-step reductions of a case: fewer calls, a sub-formula in place of the formula, a constant in place of a
+    sub-formula, fewer substitutions / vector items"""
+    def sub_variants(e):
+        out = []
+        kids = [x for x in e[1:] if isinstance(x, list)]
+        if e[0] in ('u', 'b', 'ibc') and not (e[0] == 'b' and e[1] in X.CMPS + ['and', 'or']) and e[1] != 'not':
+            out.extend(kids)                                    # a child in place of the node
+        if e[0] == 'ite':
+            out.extend(e[2:4])                                  # (conditions are kept: they are not values)
+        if e[0] == 'sum':
+            out.append(e[4])
+        if e[0] not in ('c', 'v', 'nan') and not X.fvv(e):
+            out.append(['c', '1', 'i'])
+        for j, x in enumerate(e):
+            if isinstance(x, list) and not (e[0] == 'sum' and j in (2, 3)) and not (e[0] == 'ite' and j == 1):
+                for y in sub_variants(x):
+                    out.append(e[:j] + [y] + e[j + 1:])
+        return out
+    k = case['kind']
+    out = []
+    if k == 'eval':
+        if len(case['calls']) > 1:
+            out.extend(dict(case, calls=[c]) for c in case['calls'])
+            out.extend(dict(case, calls=case['calls'][:j] + case['calls'][j + 1:]) for j in range(len(case['calls'])))
+        for e2 in sub_variants(case['expr'])[:60]:
+            need = X.fv(e2) | X.fvv(e2)
+            if all(need <= set(c['scope']) for c in case['calls']):
+                out.append(dict(case, expr=e2))
+    elif k == 'partial':
+        for x in case['subs']:
+            out.append(dict(case, subs={y: t for y, t in case['subs'].items() if y != x}))
+        for e2 in sub_variants(case['expr'])[:60]:
+            out.append(dict(case, expr=e2))
+    elif k == 'build':
+        for e2 in sub_variants(case['a'])[:40]:
+            out.append(dict(case, a=e2))
+    elif k == 'cmp':
+        for f in ('a', 'b'):
+            for e2 in sub_variants(case[f])[:30]:
+                out.append(dict(case, **{f: e2}))
+    elif k in ('vec', 'vecpartial') and not case.get('shape'):
+        if len(case['exprs']) > 1:
+            out.extend(dict(case, exprs=case['exprs'][:j] + case['exprs'][j + 1:]) for j in range(len(case['exprs'])))
+        for j, e in enumerate(case['exprs']):
+            for e2 in sub_variants(e)[:20]:
+                out.append(dict(case, exprs=case['exprs'][:j] + [e2] + case['exprs'][j + 1:]))
+    good = []
+    for c in out:
+        try:        # only well-scoped candidates (partial cases need values for what remains)
+            if c['kind'] == 'partial':
+                rem = (X.fv(c['expr']) - set(c['subs'])) | set().union(
+                    *[X.fv(t['expr']) for t in c['subs'].values() if 'expr' in t] or [set()])
+                if not rem <= set(c['scope']) | set(X.fvv(c['expr'])):
+                    continue
+            good.append(c)
+        except Exception:
+            pass
+    return good
+
+
+def shrink(case, obs, ctx):
+    """greedy shrinking of a case the specification rejects: all one-step reductions of a round are run on the
+    implementation and judged by check_spec inside Coq (one coqc batch per round); the first one that is still rejected
+    for a reason that is not a listed finding is kept.  At most 6 rounds; only the first two violations of a run are
+    shrunk (time)."""
+    ctx['_shrunk'] = ctx.get('_shrunk', 0) + 1
+    if ctx['_shrunk'] > 2:
+        return case, obs
+    for rnd in range(6):
+        cands = _reductions(case)[:150]
+        if not cands:
+            break
+        bad, cobs = _spec_fails(ctx, cands, 'shrink%d' % rnd)
+        if not bad:
+            break
+        i = min(bad, key=lambda j: sum(X.size(e) for e in _exprs_of(cands[j])) * 100 + len(cands[j].get('calls', [])))
+        case, obs = cands[i], cobs[i]
+    return case, obs
+
+
 MANIFEST = {
     'level_text': 'Proof (partial by nature): the formula algebra is proved for all formulas/scopes -- simultaneous '
                   'substitution lemma (under an executable capture guard; refuted without it), partial-then-full = at '
                   'once, operators compute the operator on values, closed-formula comparison is sound, broadcasting '
                   'evaluation = map of scalar evaluation (C12_vector, proved in round 2), typed evaluation '
                   '(int / TimeType / float) has the value of the denotation and, under the executable guard '
-                  'exact_guard, an exact type (refuted without it: int / int).  That sympy-based evaluation equals the '
+                  'exact_guard, an exact type (refuted without it: int / int); round 3: the typed model covers both '
+                  'printers (exact / numeric mode), Piecewise = numpy.select (no exactness claim) and decimal literals as '
+                  'float inputs.  That sympy-based evaluation equals the '
                   'denotation is a correspondence statement, checked on generated formulas x scopes x all access '
                   'paths, not proved.  sympy decides more comparisons than the model: their soundness is only tested.',
     'level_note': 'Trusted: Coq kernel, harness printers/generators, the sympy->AST reader that feeds the typed unit '
                   'cases. sympy/numpy/gmpy2 are the implementation under comparison. Transcendental functions only '
-                  'under tolerance (never deciding). evalT does not cover decimal float literals.',
+                  'under tolerance (never deciding). The result TYPE is compared only where the typed model computes int or '
+                  'TimeType (its float class claims nothing). Reserved names and Len/Broadcast are judged by a Python '
+                  'specification (py_spec), not in Coq.',
     'technique': 'Coq proofs over a Q-denotation of the formula language (+ a typed refinement for the exact-rational '
                  'mode) + exact correspondence check against sympy/numpy',
     'design_ref': 'DESIGN.md §5 C12, §4.2',
